@@ -14,10 +14,17 @@ CLAIMED = {
     "C05": dict(
         text=("Proof, for all inputs, of the per-function contracts that carry status fidelity inside larking: HTTPStatusCode and WSStatusCode "
               "are total over every uint32 code and equal the google.rpc.Code mapping table for 0..16 and the internal-error value otherwise "
-              "(index obligations and table postconditions discharged)."),
-        note=TRUST + "Not decided: what grpc-go / Twirp / WebSocket clients decode; encodeGrpcMessage and encError are added as their contracts are discharged.",
+              "(index obligations and table postconditions discharged); encodeGrpcMessage returns exactly the gRPC PROTOCOL-HTTP2 percent-encoding of "
+              "its argument for every string (inductive loop invariant over a recursive encoded-length spec function)."),
+        note=TRUST + "Not decided: what grpc-go / Twirp / WebSocket clients decode; the encError path is added as its contracts are discharged.",
         ref="DESIGN.md section 5 C05"),
 }
+
+CLAIMED["C15"] = dict(
+    text=("Proof, for all strings, that decodeTimeout accepts exactly the gRPC-legal timeouts (1-8 ASCII digits and a unit in HMSmun), "
+          "returns value x unit without overflow (clamped to MaxInt64) and refuses everything else; timeoutUnit is exact."),
+    note=TRUST + "strconv.ParseUint is an assumed contract (listed in the evidence). Not decided: that the deadline fires, cancellation propagation, release of blocked Recv/Send (liveness over goroutines); the serveGRPC refusal path is added when its partial contract is discharged.",
+    ref="DESIGN.md section 5 C15")
 
 NA = {
     "C03": "round trip through encoding/json, protojson, base64, gzip and protobuf reflection: larking's share is a kind-dispatch table whose every arm delegates to a dependency; a contract would axiomatise the libraries, not decide the code (DESIGN 5 C03)",
